@@ -41,6 +41,11 @@ pub enum OutState {
     ExistingLikeExpected(String),
     /// named: the character device /dev/null (open and write succeed, nothing is stored)
     DevNull,
+    /// named: a symbolic link whose target does not exist yet (in an existing directory); creating the output creates the target
+    DanglingSymlink,
+    /// named, exists and holds the rendering of the same input under the *other* sort option (same length, other
+    /// line order): what an earlier run with another --sort left behind. Resolved when the case is executed.
+    ExistingOtherSort,
 }
 
 #[derive(Clone, Debug, PartialEq)]
@@ -119,6 +124,8 @@ impl CliCase {
                 OutState::IsDirectory => J::s("is_directory"),
                 OutState::ExistingLikeExpected(t) => J::obj().set("existing_like_expected_plus", J::s(t)),
                 OutState::DevNull => J::s("dev_null"),
+                OutState::DanglingSymlink => J::s("dangling_symlink"),
+                OutState::ExistingOtherSort => J::s("existing_other_sort"),
             },
         );
         o.put("opt_args", J::Arr(self.opt_args.iter().map(J::s).collect()));
@@ -149,6 +156,8 @@ impl CliCase {
             Some(J::Str(s)) if s == "in_missing_dir" => OutState::InMissingDir,
             Some(J::Str(s)) if s == "is_directory" => OutState::IsDirectory,
             Some(J::Str(s)) if s == "dev_null" => OutState::DevNull,
+            Some(J::Str(s)) if s == "dangling_symlink" => OutState::DanglingSymlink,
+            Some(J::Str(s)) if s == "existing_other_sort" => OutState::ExistingOtherSort,
             Some(o) if o.get("existing_like_expected_plus").is_some() => OutState::ExistingLikeExpected(o.str_of("existing_like_expected_plus")?),
             Some(o) => OutState::Existing(j_bytes(o.get("existing").ok_or("output")?)?),
             None => return Err("output".into()),
@@ -335,6 +344,12 @@ pub fn run_cli_env(case: &CliCase, entropy: u128, sandbox: &Path, expected: Opti
     let outp = if matches!(case.output, OutState::DevNull) { PathBuf::from("/dev/null") } else { sandbox.join(&case.output_name) };
     match &case.output {
         OutState::Stdout | OutState::New | OutState::InMissingDir | OutState::DevNull => {}
+        OutState::DanglingSymlink => {
+            std::os::unix::fs::symlink("link-target-that-does-not-exist-yet.rs", &outp).map_err(|e| e.to_string())?;
+        }
+        OutState::ExistingOtherSort => {
+            // the caller (props::c12) replaces this state by Existing(<other rendering>) before running; alone it is just new
+        }
         OutState::Existing(b) => std::fs::write(&outp, b).map_err(|e| e.to_string())?,
         OutState::ExistingLikeExpected(tail) => {
             let content = match expected {
@@ -357,7 +372,7 @@ pub fn run_cli_env(case: &CliCase, entropy: u128, sandbox: &Path, expected: Opti
                 let _ = f.set_modified(t0);
             }
         }
-        if matches!(case.output, OutState::Existing(_) | OutState::ExistingLikeExpected(_)) {
+        if matches!(case.output, OutState::Existing(_) | OutState::ExistingLikeExpected(_)) && outp.is_file() {
             let t = match case.entropy % 3 {
                 0 => t0 - Duration::from_secs(3600),
                 1 => t0,
@@ -420,7 +435,11 @@ pub fn run_cli_env(case: &CliCase, entropy: u128, sandbox: &Path, expected: Opti
         }
     }
     cmd.stdin(Stdio::null());
-    cmd.stdout(std::fs::File::create(&so).map_err(|e| e.to_string())?);
+    // stdout is a regular file that already holds a line and is opened for appending (`prog >> log`): what the program
+    // prints must come after it
+    const STDOUT_MARK: &[u8] = b"## earlier content of the stdout file\n";
+    std::fs::write(&so, STDOUT_MARK).map_err(|e| e.to_string())?;
+    cmd.stdout(std::fs::OpenOptions::new().append(true).open(&so).map_err(|e| e.to_string())?);
     cmd.stderr(std::fs::File::create(&se).map_err(|e| e.to_string())?);
     let mut child = cmd.spawn().map_err(|e| format!("spawn {}: {e}", bin_path().display()))?;
     let t0 = Instant::now();
@@ -452,10 +471,30 @@ pub fn run_cli_env(case: &CliCase, entropy: u128, sandbox: &Path, expected: Opti
         exit: status.and_then(|s| s.code()),
         signal: status.map(|s| s.code().is_none()).unwrap_or(false),
         timed_out,
-        stdout: std::fs::read(&so).unwrap_or_default(),
+        stdout: {
+            let all = std::fs::read(&so).unwrap_or_default();
+            match all.strip_prefix(STDOUT_MARK) {
+                Some(rest) => rest.to_vec(),
+                None => {
+                    let mut v = b"<<the earlier content of the stdout file was destroyed>>".to_vec();
+                    v.extend_from_slice(&all);
+                    v
+                }
+            }
+        },
         stderr: std::fs::read(&se).unwrap_or_default(),
         before,
-        after: snap(&outp),
+        after: {
+            let mut a = snap(&outp);
+            if matches!(case.output, OutState::DanglingSymlink) {
+                // what counts is what the link leads to afterwards
+                if let Ok(b) = std::fs::read(&outp) {
+                    a.bytes = b;
+                    a.exists = true;
+                }
+            }
+            a
+        },
         fired: parse_report(&report, case),
         report,
     };
